@@ -5,6 +5,7 @@
    (`from_element`), DbType::db_keys (`db_keys`), the From / TryFrom<DbValue> tables (`to_dbvalue`,
    `from_dbvalue`; custom value types through the C20 codec).  f32 / Vec<f32> are not modelled. *)
 From Agdb Require Import Bytes Utf8 Codec DbValue Graph DbModel Search Queries DeriveType DeriveTypeProofs.
+From Agdb Require DbInvProofs.
 Open Scope N_scope.
 
 (* Conversions, every kind: converting the value of a field to a DbValue and back gives the value —
@@ -89,6 +90,25 @@ Theorem C22_select_is_query :
     end.
 Proof. exact select_is_query. Qed.
 Print Assumptions C22_select_is_query.
+
+(* The property's first sentence, end to end on the validated database model, for every revision and every database
+   state satisfying the C08-C11 state invariant (DbInvProofs.Inv: reachable states): `insert().element(&v)` with
+   db_id = None is InsertValuesQuery { ids: [Id(0)], values: Multi([to_db_values(v)]) }; it creates a new node `id`
+   whose pairs are exactly to_db_values(v) (a reused slot starts empty), and select().elements::<T>().ids(id) on the
+   resulting database followed by from_db_element is Ok of the value with db_id := Some(id). *)
+Theorem C22_insert_select_roundtrip :
+  forall (rv : revision) (p : profile) (d : db) (element : option bytes) (fs : list fdesc) (l : list sval),
+    DbInvProofs.Inv d ->
+    NoDup (names fs) -> svals_ok fs l = true -> (element = None \/ ~ In element_id_key (names fs)) ->
+    let kvs := to_values element fs l in
+    exists id d1,
+      exec rv d (InsertValues (Ids [QId 0]) (Multi [kvs])) = (d1, QOk (lenZ kvs) [elem d1 id []]) /\
+      graph_index (gr d1) id = true /\ kvs_get (vals d1) id = kvs /\
+      exists sel,
+        exec_select rv d1 (SelectValues (map DString (db_keys true fs)) (Ids [QId id])) = QOk 1 [elem d1 id sel] /\
+        from_element p id sel fs = Ok (norm id l).
+Proof. exact insert_select_roundtrip. Qed.
+Print Assumptions C22_insert_select_roundtrip.
 
 (* The defect found by the check and repaired (known_findings.txt `fixed: property=C22 61eb706`): with the PINNED macro
    (fixed = false) a type without an own Option field that flattens a struct with one asks for too few keys — the
